@@ -93,7 +93,8 @@ class C20(Property):
             "evaluations = tool invocations + reference library calls.  "
             "Non-trivial run = >= 2 invocations or >= 2 files with at least "
             "one damaged or non-encodable file; distinct = distinct "
-            "event-log digests among those.")
+            "event-log digests among those."
+            " Also generated: legal files of 150-180 nested blocks, files 400-600 collections deep, byte order marks, Latin-1 bytes inside labels, an in-flight abort in one validate row; all invocations of a run share one simulated standard output, as in a real process.")
     ASSUMPTIONS = [
         "the reference for a validate row is a fresh parser/encoder pair "
         "built like the dialects table documents it",
